@@ -61,6 +61,9 @@ type c15Scen struct {
 	LateDials     int `json:"late_dials,omitempty"`
 }
 
+// c15Pipelined counts DISCONNECTs with packets behind them (label only).
+var c15Pipelined atomic.Int64
+
 var c15Topics = []string{"c/a", "c/b", "c/a/x", "$sys/z"}
 var c15Filters = []string{"c/a", "c/+", "c/#", "#", "$share/g/c/a", "$sys/#"}
 
@@ -270,6 +273,19 @@ func runC15(s c15Scen, c *ev.Case) *ev.Violation {
 						cl = c2
 					}
 				case "disconnect":
+					if op.T%3 == 0 {
+						// a client that writes more packets behind its DISCONNECT (in one piece) and leaves the
+						// socket open: the broker has to get rid of the connection on its own
+						raw, _ := mw.Encode(&mw.Packet{Type: mw.DISCONNECT}, cl.V)
+						ping, _ := mw.Encode(&mw.Packet{Type: mw.PINGREQ}, cl.V)
+						for k := 0; k < 6+4*op.T; k++ {
+							raw = append(raw, ping...)
+						}
+						_ = cl.SendRaw(raw)
+						c15Pipelined.Add(1)
+						cl = nil // stays open and tracked: it must read EOF after Stop at the latest
+						break
+					}
 					_ = cl.Send(&mw.Packet{Type: mw.DISCONNECT})
 					cl.Kill()
 					cl = nil
@@ -418,6 +434,9 @@ func runC15(s c15Scen, c *ev.Case) *ev.Violation {
 	}
 	if s.StopAt < 100 {
 		c.Label("stop_mid_workload")
+	}
+	if c15Pipelined.Swap(0) > 0 {
+		c.Label("disconnect_with_trailing_packets")
 	}
 	// the take-over of the stalled reader is part of the workload that must be answered: wait for its verdict
 	select {
